@@ -268,6 +268,9 @@ func c11Prop(c *sim.Case) {
 func TestC11(t *testing.T) {
 	r := sim.NewRun(t, "C11")
 	defer r.Finish()
+	if r.Shard%2 == 1 {
+		sim.EnableDebugLogging() // odd shards run with every logging scope at debug level: logging must not change what is done
+	}
 	r.Rule = "one session driven over 2-20 token lifetimes: clock advanced just past the ID-token or access-token expiry, the provider's next refresh answer drawn (rotate or keep the refresh token; omit any subset of id_token/access_token/expires_in/nonce; token_type capitalisation; 4xx/5xx; garbage body; unparsable, foreign-key or wrong-audience ID token; wrong token_type; dropped connection), interleaved with extra requests, re-logins and idle time; both stores, forwarding on/off. Oracle: provider ledger (refresh token in use must be the session's most recently issued), independently computed merge compared with forwarded headers and with the store contents, and the failure postconditions. Non-trivial = at least two consecutive successful refreshes of the session with a rotation or an omission among them; distinct = distinct (config, behaviour sequence)."
 	r.Assumptions = []string{
 		"'success' = token endpoint answered 200 with a bearer response and the ID token resulting from the merge verifies under the configured keys with the client id in aud",
